@@ -112,6 +112,49 @@ PROPS = {
                 'followed by the rest of the build and unchanged rebuilds; non-trivial = a value was served '
                 'from a record after mutations happened',
     },
+    'C14': {
+        'title': 'Internal OS errors',
+        'fault_units': (500, 6000, 4, 0),      # base histories quick/thorough, fault points per history (0 = all)
+        'units': [],
+        'owned': set(CLAUSE_OWNER) | {'FaultSurfaces', 'FaultLeavesConsistent', 'CacheReplacedOnlyOnSuccess'},
+        'nontrivial': lambda st, sc: sc.get('fault_at') is not None,
+        'rule': 'for each random history the library\'s own directory-creating / move-aside / cache-writing '
+                'calls are counted in a fault-free run under the interposer, then the history is re-run once '
+                'per chosen fault point with an injected OSError; the whole trace (exception surfaces, rollback '
+                'or consistent continuation, final tree, next builds) is validated; non-trivial = a fault was '
+                'injected',
+    },
+    'C16': {
+        'title': 'Cache persistence',
+        'fault_units': (400, 5000, 0, 0),
+        'fault_profile': 'persist',
+        'fault_calls': ['gzip.open:w', 'gzip.write'],
+        'units': [('persist', 3000, 40000), ('regress', 0, 0)],
+        'owned': {'PersistedEqualsReturned', 'CacheWritten', 'CacheReplacedOnlyOnSuccess', 'ExecOnlyIfJustified',
+                  'ReuseOnlyIfValid', 'ReturnMatches', 'NoSpuriousException', 'FinalTreeMatches', 'CleanExact',
+                  'RollbackRestores', 'FaultSurfaces', 'AnswerMatches', 'OutputsNotRewritten',
+                  'ArgsRoundTripped', 'TempDirRemoved', 'RefusalExpected', 'RefusalNoEffect'},
+        'nontrivial': lambda st, sc: st['reuse'] > 0 or sc.get('fault_at') is not None,
+        'rule': 'programs returning exotic JSON values (non-BMP / lone-surrogate / control-character strings, '
+                '2^63, 10^40, -0.0, 1e308, 5e-324, +-inf, deep nesting, non-string keys, tuples), outputs and '
+                'directories with spaces / non-ASCII / leading dots / 200-character names, exotic version values, '
+                'caught failures; unchanged rebuilds must serve type-exact equal values and invoke nothing; the '
+                'cache write (gzip.open and write) is failed once at every occurrence; non-trivial = a value was '
+                'served from the cache, or a cache-write fault was injected',
+    },
+    'C15': {
+        'title': 'Refused calls',
+        'units': [('refuse', 4000, 60000)],
+        'owned': {'RefusalNoEffect', 'RefusalExpected', 'RefusedCallRanUserCode', 'TempDirRemoved',
+                  'CleanNoCacheNoEffect'},
+        'nontrivial': lambda st, sc: st['refuse'] > 0,
+        'rule': 'random histories with refused calls inserted after builds: wrong argument types at each '
+                'position of build_versioned/clean, build-name mismatch, cache path is a directory, cache '
+                'bytes derived from the real cache file of that history by truncation at several offsets, '
+                'single bit flips, non-gzip, gzip of non-JSON, JSON non-object, other software, newer format, '
+                'missing key; non-trivial = at least one refused call was judged (tree bit-identical, no '
+                'temp dir left, no user code run)',
+    },
     'C10': {
         'title': 'build_file contract',
         'units': [('bfcontract', 2000, 30000), ('probe', 300, 5000), ('regress', 0, 0)],
